@@ -1,7 +1,7 @@
 import TapkeeVerif.Model.Util
 import TapkeeVerif.Model.Params
 /-! Line-protocol driver for the front-end model (DESIGN §11, property C14).
-    in : `front N=10 cbs=kd stop=1 kw=method:meth:Isomap,num_neighbors:int:3,landmark_ratio:real:3/10`
+    in : `front N=10 [D=10] cbs=kd stop=1 kw=method:meth:Isomap,num_neighbors:int:3,landmark_ratio:real:3/10`
          (value forms: int:<i> real:<dyadic|a/b|i> bool:0|1 meth:<ident> nbrs:<ident> eig:<ident> strat:<ident>
           cancel:null|true|false progress:null|fn other:<tag> default:-)
     out: `throw tapkee::wrong_parameter_error k=0 d=0 f=0 | echo=<ident>=<value>;…`   (`ok …`, `reached distance …`) -/
@@ -68,9 +68,10 @@ def answer (line : String) : String :=
   | some n =>
     let cbs := (field? fs "cbs").getD ""
     let stop := (field? fs "stop").getD "0" == "1"
+    let dim := ((field? fs "D") >>= String.toNat?).getD 10
     match allSome ((splitNonEmpty ((field? fs "kw").getD "") ",").map parseItem) with
     | none => "bad-kw"
     | some kws =>
-      showResult { n := n, kws := kws, hasK := cbs.contains 'k', hasD := cbs.contains 'd', hasF := cbs.contains 'f', stop := stop }
+      showResult { n := n, kws := kws, hasK := cbs.contains 'k', hasD := cbs.contains 'd', hasF := cbs.contains 'f', stop := stop, dim := dim }
 
 def main : IO Unit := runLines answer
